@@ -1,6 +1,8 @@
 ----------------------------- MODULE ContractOps -----------------------------
-(* Scenario generator for C15: the operation alphabet of every embedded contract and of the       *)
-(* bundled WASM contracts, over an abstract LIFECYCLE of one contract instance.                    *)
+(* Scenario generator for C15: the operation alphabet of every embedded contract, of the bundled   *)
+(* WASM contracts and of a hand-assembled WASM contract that moves DNA ("payer": transfers, burns,*)
+(* cross-contract calls with pay amounts - none of the bundled ones does), over an abstract        *)
+(* LIFECYCLE of one contract instance.                                                             *)
 (*                                                                                                *)
 (* An operation is  [m: deploy | method | terminate | unknown | fund | wait,                       *)
 (*                   arg: argument class, amt: pay-amount class, gas: gas class, who: caller role, *)
@@ -27,6 +29,7 @@ CONSTANTS Contracts,     \* contract kinds to generate for
 
 VARIABLES c,      \* contract kind
           w,      \* world preset: "base" | "voted" (a finished oracle voting exists) | "incd" (inc_func deployed)
+                  \*               | "payerd" (a second instance of the hand-assembled payer contract exists)
           s,      \* lifecycle state [life, stage, funded, var]
           hist    \* operations so far (not in the view)
 vars == <<c, w, s, hist>>
@@ -45,10 +48,12 @@ Methods(k) ==
       [] k = "erc20"      -> {"transfer", "approve", "transferFrom"}
       [] k = "testcases"  -> {"test"}
       [] k = "sft"        -> {"transferTo", "receive"}
+      [] k = "payer"      -> {"pay", "burn", "payfail", "paytwice", "store", "storefail", "relay", "relayboom", "relayhop"}
       [] OTHER            -> {}
 
 Presets(k) == CASE k \in {"oraclelock", "refundlock"} -> {"base", "voted"}
                 [] k = "sum" -> {"incd"}
+                [] k = "payer" -> {"payerd"}
                 [] OTHER -> {"base"}
 
 (* the well-formed default of a method *)
